@@ -588,7 +588,8 @@ theorem ntt_table_ok :
 
 /-- **The root tables of `MultiZmodP::new`** (model `Ymq.Crt.rootsPacked`: `ωs[i] = mg_mul64(g_i^(2^(32-logsize)),
 R²)`, the `2^logsize` successive products, the packed levels `roots[log]` = `2^(log-1)` forward then
-`2^(log-1)` backward entries): for every context built by the model of `new` with `logsize ≤ 31` no
+`2^(log-1)` backward entries, and the `debug_assert!` sanity check `ω^(2^logsize) == 1` at the end of `new`,
+PROVED to pass): for every context built by the model of `new` with `logsize ≤ 31` no
 panic site is reached and the tables meet `RootsOk`: level `k` holds the Montgomery forms of `ω_k^i` and
 `ω_k^(-i)` (`i < 2^(k-1)`), `ω_k = g^(2^(32-k))` (`omk`), with `ω_(k+1)² = ω_k`, `ω_k^(2^(k-1)) = -1`
 (principal root: hypothesis of `dft_conv`), `ω_k·ω_k⁻¹ = 1`, for every prime of the context. -/
